@@ -799,6 +799,7 @@ class Ev:
         self.ids = {}  # python id -> IdV, for id(x) used as dictionary keys
         self.input_reply = None  # what input() answers (Str), when the evaluated code may ask the user
         self.module_cache = {}
+        self.memo_calls = {}
         self.ctor_models = {}  # class name -> python function(args, kwargs) giving the model of the constructed object
         self.model_calls = {}  # dotted name of an outside callable -> python function(args, kwargs) modelling it
         self.assume_valid = True  # argument validators (commonroad.common.validity.is_*) hold for the symbolic inputs
@@ -839,9 +840,7 @@ class Ev:
                     return r
             raise Undecided("truth of the uninterpreted result %r%s" % (v, " at line %s" % node.lineno if node is not None else ""))
         if isinstance(v, ElemV):
-            if v.children.items:
-                return True
-            raise Undecided("truth value of an element without children (use `is not None`)")
+            return bool(v.children.items)  # (l)xml: an element is true iff it has children
         if isinstance(v, Lenient):
             raise Undecided("truth of the unmodelled object %r" % (v,))
         if isinstance(v, (Obj, MatchV, EnumMember, Ctor, ClassRef, FuncV, PatternV, PyFunc, PartialV)):
@@ -1149,6 +1148,15 @@ class Ev:
             r = Ctor(qn, bound, kind="call")
             self.trace.append(("call", node, r))
             return r
+        memo_key = None
+        if any(ast.unparse(d).split("(")[0] in ("functools.lru_cache", "lru_cache", "functools.cache", "cache") for d in fn.decorator_list):
+            # a memoised function: one result object per argument tuple, as at run time
+            try:
+                memo_key = (id(fn), tuple(self.key_of(a) for a in args), tuple(sorted((k, self.key_of(v)) for k, v in kwargs.items())))
+            except Exception:
+                memo_key = None
+            if memo_key is not None and memo_key in self.memo_calls:
+                return self.memo_calls[memo_key]
         self.depth += 1
         if self.depth > 12:
             raise AnalysisError("call depth exceeded in %s" % qn)
@@ -1161,7 +1169,10 @@ class Ev:
             r = self.block(fn.body, env, f.mod)
             if is_gen:
                 return ListV(env["__yield__"])  # a generator is modelled by the list of what it yields
-            return r[1] if r is not None else NONE
+            out = r[1] if r is not None else NONE
+            if memo_key is not None:
+                self.memo_calls[memo_key] = out
+            return out
         finally:
             self.depth -= 1
 
@@ -1967,6 +1978,7 @@ class Ev:
             el = ElemV(args[1], args[2].d if len(args) > 2 and isinstance(args[2], DictV) else None)
             el.attrib.d.update({k: v for k, v in kwargs.items() if k not in ("attrib", "nsmap")})
             args[0].children.items.append(el)
+            el.parent = args[0]
             return el
         if name in ("datetime.strptime", "datetime.datetime.strptime") and len(args) == 2:
             x, fmt = args
@@ -2268,14 +2280,24 @@ class Ev:
             if name == "get":
                 k = self.key_of(args[0])
                 return recv.attrib.d.get(k, args[1] if len(args) > 1 else kwargs.get("default", NONE))
+            def adopt(child):
+                # lxml: an element has one parent; appending it elsewhere moves it
+                if isinstance(child, ElemV):
+                    old = getattr(child, "parent", None)
+                    if old is not None:
+                        old.children.items[:] = [c for c in old.children.items if c is not child]
+                    child.parent = recv
+                return child
+
             if name == "append":
-                recv.children.items.append(args[0])
+                recv.children.items.append(adopt(args[0]))
                 return NONE
             if name == "extend":
-                recv.children.items.extend(self.iterate(args[0], e))
+                for c_ in list(self.iterate(args[0], e)):
+                    recv.children.items.append(adopt(c_))
                 return NONE
             if name == "insert" and isinstance(args[0], int):
-                recv.children.items.insert(args[0], args[1])
+                recv.children.items.insert(args[0], adopt(args[1]))
                 return NONE
             if name in ("find", "findall", "iter", "iterchildren", "iterfind"):
                 want = args[0] if args else None
